@@ -80,3 +80,32 @@ Qed.
 Lemma faults_nomask_second_dies : dead (faults false 2 sig_init) = true
                                   /\ recovered (faults false 2 sig_init) = 1%nat.
 Proof. split; reflexivity. Qed.
+
+(* ---------- FitIntSize ---------- *)
+Lemma fit_fixed_exact tn pw n limit :
+  wf_ity tn -> wf_pw pw -> in_range (bits tn) n -> 0 <= limit < 2 ^ (pw - 1) ->
+  exists r, exec (recipe_fit true tn pw) [n] = Ret r
+            /\ bound_ok limit (sgn pw r) = bound_ok limit (val tn n)
+            /\ (bound_ok limit (val tn n) = true -> sgn pw r = val tn n).
+Proof.
+  intros Htn Hpw Hn Hl. destruct tn as [w s]. unfold wf_ity in Htn. cbn [bits sg] in *.
+  unfold in_range, bound_ok in *.
+  destruct Hpw as [-> | ->]; widths Htn; destruct s;
+  (match goal with |- exists r, exec ?f _ = _ /\ _ => let f' := eval vm_compute in f in change f with f' end);
+  cbn [exec nparams body ret retw length Nat.eqb map run step get nth_error eval_cast eval_pred app b2z];
+  const_wrap;
+  try (match goal with |- context [b2z ?c =? 0] => destruct c eqn:? end);
+  cbn [b2z]; try change (1 =? 0) with false; try change (0 =? 0) with true; cbv iota;
+  eexists; (split; [reflexivity|]); cbn [val sg bits];
+  unfold sgn, wrap in *; const_wrap; const_pow_hyps;
+  repeat match goal with
+   | H : context [if ?a <? ?b then _ else _] |- _ => destruct (a <? b) eqn:?
+   | |- context [if ?a <? ?b then _ else _] => destruct (a <? b) eqn:?
+  end; split; try lia; intros; lia.
+Qed.
+
+(* plain truncation lets an out-of-range bound wrap into range *)
+Lemma fit_truncation_refuted :
+  exec (recipe_fit false I64 32) [2 ^ 32 + 1] = Ret 1
+  /\ bound_ok 10 (val I64 (2 ^ 32 + 1)) = false /\ bound_ok 10 (sgn 32 1) = true.
+Proof. repeat split; reflexivity. Qed.
